@@ -8,6 +8,8 @@ package main
 //   - static call graph, recursion, inlinability
 
 import (
+	"fmt"
+	"go/token"
 	"go/types"
 	"sort"
 	"strings"
@@ -323,9 +325,77 @@ func (pp *Prepass) directWrites(fn *ssa.Function) KeySet {
 // instrWrites adds the heap keys instruction ins may write itself (callee
 // bodies excluded; stubs of external callees included).
 func (pp *Prepass) instrWrites(fn *ssa.Function, ins ssa.Instruction, ws KeySet) {
+	pp.instrWritesIn(fn, ins, ws, nil)
+}
+
+// freshAddr: the address points into an object allocated by this very
+// function inside scope (nil: anywhere in the function). Such an object does
+// not exist in the state the write-set is applied to (the caller's state at
+// the call, the loop-head state), so the store is not a write to anything
+// that state knows about. Pointers are followed through non-escaping local
+// variables all of whose assignments are fresh objects.
+func (pp *Prepass) freshAddr(v ssa.Value, scope map[*ssa.BasicBlock]bool, depth int) bool {
+	if depth > 6 {
+		return false
+	}
+	switch x := v.(type) {
+	case *ssa.FieldAddr:
+		return pp.freshAddr(x.X, scope, depth+1)
+	case *ssa.IndexAddr:
+		if _, ok := x.X.Type().Underlying().(*types.Pointer); ok {
+			return pp.freshAddr(x.X, scope, depth+1)
+		}
+		return false
+	case *ssa.Alloc:
+		if !x.Heap || !pp.EscAlloc[x] {
+			return false
+		}
+		return scope == nil || scope[x.Block()]
+	case *ssa.UnOp:
+		if x.Op != token.MUL {
+			return false
+		}
+		cell, ok := x.X.(*ssa.Alloc)
+		if !ok || pp.EscAlloc[cell] {
+			return false
+		}
+		refs := cell.Referrers()
+		if refs == nil {
+			return false
+		}
+		stores := 0
+		for _, r := range *refs {
+			switch s := r.(type) {
+			case *ssa.Store:
+				if s.Addr != cell {
+					return false
+				}
+				if scope != nil && !scope[s.Block()] {
+					return false
+				}
+				if !pp.freshAddr(s.Val, scope, depth+1) {
+					return false
+				}
+				stores++
+			case *ssa.UnOp:
+				// load
+			case *ssa.DebugRef:
+			default:
+				return false
+			}
+		}
+		return stores > 0
+	}
+	return false
+}
+
+func (pp *Prepass) instrWritesIn(fn *ssa.Function, ins ssa.Instruction, ws KeySet, scope map[*ssa.BasicBlock]bool) {
 	tm := pp.tm
 	switch x := ins.(type) {
 	case *ssa.Store:
+		if pp.freshAddr(x.Addr, scope, 0) {
+			return
+		}
 		pp.addrKeys(x.Addr, ws)
 	case *ssa.MapUpdate:
 		mt := x.Map.Type().Underlying().(*types.Map)
@@ -347,9 +417,8 @@ func (pp *Prepass) instrWrites(fn *ssa.Function, ins ssa.Instruction, ws KeySet)
 			}
 		}
 	case *ssa.Alloc:
-		if pp.EscAlloc[x] {
-			pp.pointeeKeys(x.Type(), ws)
-		}
+		// the zero-initialisation of a new object is not a write to anything
+		// that existed before (see freshAddr)
 	case ssa.CallInstruction:
 		cc := x.Common()
 		if bi, ok := cc.Value.(*ssa.Builtin); ok {
@@ -384,17 +453,7 @@ func (pp *Prepass) instrWrites(fn *ssa.Function, ins ssa.Instruction, ws KeySet)
 			for _, g := range fc.Ghosts {
 				ws["G:"+g.Map] = true
 			}
-			for _, m := range fc.Modifies {
-				e := m.Expr
-				if e.Kind == "index" {
-					e = e.Args[0]
-				}
-				if e.Kind == "ident" {
-					if _, ok := pp.prog.Contracts.GhostMaps[e.Name]; ok {
-						ws["G:"+e.Name] = true
-					}
-				}
-			}
+			pp.stubFrameKeys(fc, cc, ws)
 			if len(fc.LockFx) > 0 && fn != nil {
 				pp.LockTouch[fn] = true
 			}
@@ -423,6 +482,69 @@ func (pp *Prepass) instrWrites(fn *ssa.Function, ins ssa.Instruction, ws KeySet)
 	}
 }
 
+// stubFrameKeys translates the modifies targets of a callee contract into
+// heap keys, as far as they can be read off the call itself (ghost maps,
+// all(argN), elems(argN), *argN). It reports whether every target could be
+// translated; only then may the declared frame replace the write-sets of the
+// possible implementations of an interface method.
+func (pp *Prepass) stubFrameKeys(fc *FuncContract, cc *ssa.CallCommon, ws KeySet) bool {
+	all := true
+	args := cc.Args
+	if cc.IsInvoke() {
+		args = append([]ssa.Value{cc.Value}, cc.Args...)
+	}
+	argOf := func(e *SExpr) ssa.Value {
+		if e == nil || e.Kind != "ident" || !strings.HasPrefix(e.Name, "arg") {
+			return nil
+		}
+		n := 0
+		if _, err := fmt.Sscanf(e.Name, "arg%d", &n); err != nil || n < 0 || n >= len(args) {
+			return nil
+		}
+		return args[n]
+	}
+	for _, m := range fc.Modifies {
+		e := m.Expr
+		switch {
+		case e.Kind == "ident" || e.Kind == "index":
+			g := e
+			if g.Kind == "index" {
+				g = g.Args[0]
+			}
+			if g.Kind == "ident" {
+				if _, ok := pp.prog.Contracts.GhostMaps[g.Name]; ok {
+					ws["G:"+g.Name] = true
+					continue
+				}
+			}
+			all = false
+		case e.Kind == "call" && (e.Name == "all" || e.Name == "elems") && len(e.Args) == 1:
+			a := argOf(e.Args[0])
+			if a == nil {
+				all = false
+				continue
+			}
+			if e.Name == "all" {
+				pp.pointeeKeys(a.Type(), ws)
+			} else if st, ok := a.Type().Underlying().(*types.Slice); ok {
+				ws[ElemKey(pp.tm.SortOf(st.Elem()))] = true
+			} else {
+				all = false
+			}
+		case e.Kind == "unary" && e.Name == "*" && len(e.Args) == 1:
+			a := argOf(e.Args[0])
+			if a == nil {
+				all = false
+				continue
+			}
+			pp.pointeeKeys(a.Type(), ws)
+		default:
+			all = false
+		}
+	}
+	return all
+}
+
 // calleesOf: in-package functions one call may reach.
 func (pp *Prepass) calleesOf(fn *ssa.Function, cc *ssa.CallCommon) []*ssa.Function {
 	var out []*ssa.Function
@@ -443,6 +565,13 @@ func (pp *Prepass) calleesOf(fn *ssa.Function, cc *ssa.CallCommon) []*ssa.Functi
 		out = append(out, f)
 	}
 	if cc.IsInvoke() {
+		// an interface method with an assumed contract that declares its
+		// frame: the contract stands in for every implementation
+		if fc, ok := pp.prog.Contracts.Funcs[calleeName(cc)]; ok && fc.IsStub && fc.HasMod {
+			if pp.stubFrameKeys(fc, cc, KeySet{}) {
+				return nil
+			}
+		}
 		for _, impl := range pp.Impls[cc.Method.Name()] {
 			if sigKey(impl.Signature) == sigKey(cc.Method.Type().(*types.Signature)) {
 				add(impl)
